@@ -157,10 +157,9 @@ def run(rep):
 _DDL_IDX = None
 DDL_STAT5 = ("ADD_STATISTICS", "MODIFY_STATISTICS", "DROP_STATISTICS", "CLEAR_STATISTICS", "MATERIALIZE_STATISTICS")
 
-# SQL texts whose parse is the AST of a refutation witness of Properties/C04_ddl.v (class: valid = a syntactically valid
-# ClickHouse statement; incomplete = accepted by the permissive parser only)
+# SQL texts whose parse is the AST of a refutation witness of Properties/C04_ddl.v: inputs accepted by the permissive parser
+# only (no valid ClickHouse statement), so outside C04's quantifier; the verified checker is expected to reject their EXPLAIN
 DDL_SQL_WITNESSES = [
-    ("alter-statistics-type-arguments", "valid", "ALTER TABLE t ADD STATISTICS a TYPE tdigest(5)"),
     ("alter-statistics-no-columns", "incomplete", "ALTER TABLE t ADD STATISTICS"),
     ("alter-modify-ttl-nil-expression", "incomplete", "ALTER TABLE t MODIFY TTL"),
     ("create-function-no-body", "incomplete", "CREATE FUNCTION f AS"),
@@ -169,7 +168,7 @@ DDL_SQL_WITNESSES = [
 
 
 def ddl_outside(case):
-    """Name of the condition of Properties/C04_ddl.v (inv_alter_count / inv_alter_shape / inv_create) that the case violates,
+    """Name of the condition of Properties/C04_ddl.v (inv_alter_count / inv_create) that the case violates,
     None when the theorems C04_alter_is_tree / C04_create_is_tree / C04_column_is_tree / C04_index_is_tree apply to it."""
     global _DDL_IDX
     if _DDL_IDX is None:
@@ -193,8 +192,6 @@ def ddl_outside(case):
             return "alter-statistics-no-columns"        # only the incomplete `ALTER TABLE t ADD STATISTICS`
         if ty in DDL_STAT5[2:] and not a("StatisticsColumns"):
             return "alter-statistics-no-columns"
-        if ty in DDL_STAT5 and a("StatisticsTypes") >= 4:
-            return "alter-statistics-type-arguments"    # REACHABLE FROM A VALID STATEMENT: ... ADD STATISTICS a TYPE tdigest(5)
     elif kind == "CRE":
         f = spec.split(":")[0]
 
@@ -274,12 +271,8 @@ def ddl_correspondence(rep, broken, quick):
     if mism:
         broken.append({"obligation": "correspondence:internal/explain/{explain,statements}.go~DdlExplainModel",
                        "detail": "%d of %d cases differ: %s" % (mism, n, first_diff)})
-    # the field combinations outside the proved conditions (model and code agree that they are NOT trees there: the *_refuted lemmas).
-    # One of them is reachable from a valid statement; it is reported as a known finding when known_findings.json lists it and
-    # recorded in the evidence otherwise (the check of the unchanged tree passes; the defect is in the report of this extension).
-    key = "ddl-statistics-type-arguments"
-    if outside.get("alter-statistics-type-arguments") and rep.is_known(key=key) is not None:
-        rep.violation("input", "ALTER ... ADD STATISTICS c TYPE kind(args): the arguments are printed beside the ExpressionList", {}, key=key)
+    # the field combinations outside the proved conditions (model and code agree that they are NOT trees there: the *_refuted
+    # lemmas; none is reachable from a valid statement) are counted in the evidence
     # the SQL witnesses, through the real parser and the verified checker
     sqlw = []
     win = os.path.join(verif.BUILD, "ddl_witness_in.txt")
@@ -295,8 +288,6 @@ def ddl_correspondence(rep, broken, quick):
         sqlw.append({"condition": name, "class": cls, "sql": sql, "verified_checker": verdict.get(sql.encode().hex(), "no-output")})
     return {"found": found, "ddl_model_cases": n, "ddl_model_mismatches": mism, "ddl_cases_by_kind": kinds,
             "ddl_not_tree_outside_proved_conditions": outside,
-            "ddl_open_defect_reachable_from_valid_sql": {"key": key, "sql": DDL_SQL_WITNESSES[0][2], "cases": outside.get("alter-statistics-type-arguments", 0),
-                                                         "listed_in_known_findings": rep.is_known(key=key) is not None},
             "ddl_sql_witnesses": sqlw,
             "ddl_enumeration": "checks/gen_ddl_cases.py: all 7680 column field combinations; all 12 index definitions; for each of the 45 AlterCommandType constants and 2 other strings all combinations of the fields its tally or emission reads + random commands over all 26 fields; all 48 AlterQuery shapes; CreateQuery: special variants, main-tally field combinations (thorough: all 589824; quick: 6144 over the 12 interacting fields), storage-definition and columns-definition combinations, random queries over all 41 fields"}
 
